@@ -128,12 +128,27 @@ type vwEntry struct {
 
 // a symbolic entry: every leaf arbitrary
 func vwMkEntry(tag string, signerKind int, signer crypto.PublicKey) vwEntry {
+	return vwMkEntryR(tag, signerKind, signer, false)
+}
+
+// reduced: algorithm ids fixed to the honest ones (values stay symbolic)
+func vwMkEntryR(tag string, signerKind int, signer crypto.PublicKey, reduced bool) vwEntry {
 	var e vwEntry
-	e.alg = vwAlgs[verif.Choose("alg"+tag, len(vwAlgs))]
-	e.nextKind = verif.Choose("nextkind"+tag, 2) // P-256 or P-384 next owner
+	var ph, hh protocol.HashAlg
+	if reduced {
+		e.alg = int64(cose.ES256Alg)
+		if signerKind == vcP384 {
+			e.alg = int64(cose.ES384Alg)
+		}
+		e.nextKind = signerKind
+		ph, hh = protocol.Sha256Hash, protocol.Sha256Hash
+	} else {
+		e.alg = vwAlgs[verif.Choose("alg"+tag, len(vwAlgs))]
+		e.nextKind = verif.Choose("nextkind"+tag, 2) // P-256 or P-384 next owner
+		ph = vwHashAlgs[verif.Choose("prevalg"+tag, len(vwHashAlgs))]
+		hh = vwHashAlgs[verif.Choose("hdralg"+tag, len(vwHashAlgs))]
+	}
 	e.nextPub = vcPub(e.nextKind, "next"+tag)
-	ph := vwHashAlgs[verif.Choose("prevalg"+tag, len(vwHashAlgs))]
-	hh := vwHashAlgs[verif.Choose("hdralg"+tag, len(vwHashAlgs))]
 	hl := func(a protocol.HashAlg) int {
 		if a == protocol.Sha384Hash {
 			return 48
@@ -167,7 +182,9 @@ type vwHdr struct {
 
 func vwMkHeader(simple bool) *vwHdr {
 	h := &vwHdr{}
-	if simple {
+	if g, ok := verif.Ghost("fix-mfgkind").(int); ok {
+		h.mk = g
+	} else if simple {
 		h.mk = verif.Choose("mfgkind", 2)
 	} else {
 		h.mk = verif.Choose("mfgkind", 2+verif.Tier())
